@@ -41,11 +41,22 @@ def strat_case(draw, tier):
     if kind == "forward":
         pdim, strikes = (1, strikes[:1]) if d == 1 else (d, strikes)
     ncv = draw(st.integers(0, 3)) if d == 1 else 0
+    und_index = None
     controls = [{"kind": ["forward", "call", "put"][i], "strike": draw(_f(0.5, 250.0)), "price": draw(_f(-50.0, 200.0))}
                 for i in range(ncv)]
+    if d > 1 and draw(st.booleans()):
+        # several assets: forwards on single assets (NthSpot underlyings) as controls of the strip of vanillas on the spots
+        idx = draw(st.lists(st.integers(1, d), min_size=1, max_size=min(2, d), unique=True))
+        controls = [{"kind": "nthspot", "index": i, "strike": draw(_f(0.5, 250.0)), "price": draw(_f(-50.0, 200.0))} for i in idx]
+        ncv = len(controls)
+        if draw(st.booleans()):
+            # the product itself is written on one asset (an NthSpot underlying, like its controls but another index or the
+            # same): one strike
+            und_index = draw(st.integers(1, d))
+            strikes = strikes[:1]
     # controls with one strike and one price per payoff component (vector payoffs): component k of the payoff is then
     # adjusted with component k of every control
-    if ncv and pdim > 1 and kind != "forward" and draw(st.booleans()):
+    if ncv and pdim > 1 and kind != "forward" and controls[0]["kind"] != "nthspot" and draw(st.booleans()):
         for i, c in enumerate(controls):
             c["kind"] = ["call", "put", "call"][i]
             c["strikes"] = [draw(_f(0.5, 250.0)) for _ in range(pdim)]
@@ -61,7 +72,7 @@ def strat_case(draw, tier):
             for key in ("strikes", "prices"):
                 if key in c:
                     c[key] = [v * scale for v in c[key]]
-    return {"n": n, "d": d, "rep": rep, "vals": vals, "kind": kind, "strikes": strikes, "scale": scale,
+    return {"n": n, "d": d, "rep": rep, "vals": vals, "kind": kind, "strikes": strikes, "scale": scale, "und_index": und_index,
             # (a zero notional - a switched-off leg - and a negative one are notionals like any other)
             "notional": draw(st.sampled_from([1.0, 0.01, 1000.0, 37.5, 1.0, 37.5, 0.0, 0, -3.0])), "df": draw(_f(0.3, 1.0)),
             "controls": controls, "price_is_sample_mean": draw(st.booleans()) if ncv else False,
@@ -119,7 +130,10 @@ def body(case):
         pt = PayoffType.CALL if kind == "call" else PayoffType.PUT
         return Vanilla(strike=strikes[0] if len(strikes) == 1 else list(strikes), payoff_type=pt)
 
-    product = Product(payoff_underlying=Spot(), payoff=mk_payoff(case["kind"], case["strikes"]), maturity=T,
+    from rpylib.product.underlying import NthSpot as _NthSpot
+
+    product = Product(payoff_underlying=_NthSpot(case["und_index"]) if case.get("und_index") else Spot(),
+                      payoff=mk_payoff(case["kind"], case["strikes"]), maturity=T,
                       notional=case["notional"])
     df, notional = case["df"], case["notional"]
     vec = bool(case["controls"]) and "strikes" in case["controls"][0]
@@ -127,10 +141,16 @@ def body(case):
     def references(spots):
         """(Y, X, X3, prices, prices3): discounted notional-scaled payoff and control samples of the given spots"""
         und = spots[:, 0] if d == 1 else spots
-        Y = (np.array([notional * _payoff(case["kind"], case["strikes"], x) for x in und]) * df).reshape(len(spots), -1)
+        und_y = spots[:, case["und_index"] - 1] if case.get("und_index") else und
+        Y = (np.array([notional * _payoff(case["kind"], case["strikes"], x) for x in und_y]) * df).reshape(len(spots), -1)
         X = X3 = prices = prices3 = None
         if case["controls"] and not vec:
-            X = np.array([[float(_payoff(c["kind"], [c["strike"]], x)[0]) * df for c in case["controls"]] for x in und])
+            def ctrl(c, x):
+                if c["kind"] == "nthspot":
+                    return float(np.atleast_1d(x)[c["index"] - 1] - c["strike"]) * df
+                return float(_payoff(c["kind"], [c["strike"]], x)[0]) * df
+
+            X = np.array([[ctrl(c, x) for c in case["controls"]] for x in und])
             prices = [c["price"] for c in case["controls"]]
             if case["price_is_sample_mean"]:
                 prices = [float(v) for v in X.mean(axis=0)]
@@ -148,7 +168,11 @@ def body(case):
     Y, X, X3, prices, prices3 = references(spots)
     cv = None
     if case["controls"] and not vec:
-        cv = ControlVariates([Product(payoff_underlying=Spot(), payoff=mk_payoff(c["kind"], [c["strike"]]), maturity=T)
+        from rpylib.product.underlying import NthSpot
+
+        cv = ControlVariates([Product(payoff_underlying=NthSpot(c["index"]), payoff=Forward(strike=c["strike"]), maturity=T)
+                              if c["kind"] == "nthspot" else
+                              Product(payoff_underlying=Spot(), payoff=mk_payoff(c["kind"], [c["strike"]]), maturity=T)
                               for c in case["controls"]], prices)
     elif vec:
         cv = ControlVariates([Product(payoff_underlying=Spot(), payoff=mk_payoff(c["kind"], c["strikes"]), maturity=T)
@@ -157,7 +181,25 @@ def body(case):
     config = ConfigurationStandard(mc_paths=n, seed=None, control_variates=cv,
                                    activate_spot_statistics=case["spot_stats"], nb_of_processes=nproc)
     engine = Engine(configuration=config, process=proc)
-    stats = engine.price(product)
+    if nproc == 1:
+        stats = engine.price(product)
+    else:
+        # (an exception raised inside the pool's result callback leaves map_async(...).get() waiting for ever: a time
+        # budget, whose expiry is inconclusive, never a violation)
+        import signal
+
+        def _expired(signum, frame):
+            raise TimeoutError
+
+        previous = signal.signal(signal.SIGALRM, _expired)
+        signal.alarm(180)
+        try:
+            stats = engine.price(product)
+        except TimeoutError:
+            return [Violation("INCONCLUSIVE", "the worker pool did not return within 180 s")]
+        finally:
+            signal.alarm(0)
+            signal.signal(signal.SIGALRM, previous)
     detail = f"case={ {k: v for k, v in case.items() if k != 'vals'} } first values={case['vals'][:3]}"
     if nproc == 1:
         if proc.calls != n:
@@ -228,7 +270,8 @@ def body(case):
         else:
             out.append(Violation("LABEL:ill-conditioned-controls"))
             return out
-        sc = np.abs(y).max() + np.abs(X).max() + max(abs(p) for p in prices)
+        # (a component whose payoff and controls all vanish still carries the round-off of the other components' scale)
+        sc = np.abs(y).max() + np.abs(X).max() + max(abs(p) for p in prices) + 1e-6 * scale
         if not np.allclose(adj_lib[:, k], expect, rtol=1e-7, atol=1e-7 * sc):
             out.append(Violation(f"C07/control-variates/{len(prices)}-controls/adjusted-samples",
                                  f"component {k}: {adj_lib[:3, k]} vs textbook Y - b*(X - price_X) {expect[:3]} "
@@ -250,6 +293,7 @@ def classify(case):
     pdim = len(case["strikes"])
     labels = [f"d={case['d']}", f"payoff-dim={'1' if pdim == 1 else '2+'}", f"controls={len(case['controls'])}",
               f"scale={case.get('scale', 1.0):g}", f"processes={case.get('nproc', 1)}",
+              "product-on-one-asset-of-several" if case.get("und_index") else "product-on-the-spot(s)",
               "vector-controls" if case["controls"] and "strikes" in case["controls"][0] else "scalar-or-no-controls",
               case["rep"], case["kind"], "n=1" if case["n"] == 1 else ("n<=6" if case["n"] <= 6 else "n>6")]
     if case["price_is_sample_mean"]:
